@@ -34,12 +34,32 @@ def build_and_run(ctx, prop, n, extra=()):
     os.makedirs(d, exist_ok=True)
     vfile = os.path.join(d, "%s_cases.v" % prop)
     side = os.path.join(d, "%s_cases.jsonl" % prop)
+    # regression corpus: the witnesses of fixed findings run first and are judged by the oracle at full strength
+    corpus = fixed_witnesses(prop)
+    cpath = os.path.join(d, "%s_corpus.json" % prop)
+    json.dump(corpus, open(cpath, "w"))
+    extra = list(extra) + ["-corpus", cpath]
     rc, out = vlib.sh([binp, "-out", vfile, "-jsonl", side, "-seed", str(ctx.seed), "-prop", prop, "-n", str(n),
                        "-per", "25"] + list(extra), timeout=900)
     if rc != 0:
         raise RuntimeError("walk harness failed: " + out[-2000:])
     cases = [json.loads(l) for l in open(side)]
     return cases, vfile, binp
+
+
+def fixed_witnesses(prop):
+    """Witness cases of KNOWN_FINDINGS.d entries of this property whose status is `fixed`."""
+    import glob
+    out = []
+    for f in sorted(glob.glob(os.path.join(vlib.VERIF, "KNOWN_FINDINGS.d", "*.json"))):
+        k = json.load(open(f))
+        for e in (k if isinstance(k, list) else k.get("findings", [])):
+            if e.get("property") == prop and e.get("status") == "fixed" and isinstance(e.get("witness"), dict) and "roots" in e["witness"]:
+                w = dict(e["witness"])
+                w["stream"] = "regression"
+                w["note"] = "fixed finding " + e["id"]
+                out.append(w)
+    return out
 
 
 def shard_eval(ctx, prop, vfile, defs, per=25, workers=14):
